@@ -46,8 +46,8 @@ func cntH(q *Query, cur Map, o *FunctionOptions, args []any) (any, error) {
 // returns; ONCE runs once; under every (preemption-bounded) schedule.
 func H_C14_strategies() {
 	n := verif.Choose("rows", maxRows(2, 3)+1)
-	form := verif.Choose("form", 12)
-	if form >= 4 && form != 9 && n > 1+verif.Tier() {
+	form := verif.Choose("form", 13)
+	if form >= 4 && form != 9 && form != 12 && n > 1+verif.Tier() {
 		verif.Assume(false) // nested forms: one row (two in the thorough tier)
 	}
 	callsF, callsG, callsH, doneF, doneG = 0, 0, 0, 0, 0
@@ -93,6 +93,15 @@ func H_C14_strategies() {
 	case 11:
 		// qualified and unqualified calls mixed
 		sql = "SELECT a, ASYNC.vf(a) AS v, vg(a) AS u, SPINASYNC.vg(a) FROM t"
+	case 12:
+		// ONCE on a function whose result is NULL (a side-effect only initialiser)
+		RegisterFunction("vnil", func(q *Query, cur Map, o *FunctionOptions, args []any) (any, error) {
+			cntMu.Lock()
+			callsH++
+			cntMu.Unlock()
+			return nil, nil
+		})
+		sql = "SELECT a, ONCE.vnil(a) AS o FROM t"
 	}
 	got, ok := runQuery(doc, sql)
 	if !ok {
@@ -144,6 +153,17 @@ func H_C14_strategies() {
 			want = append(want, Map{"a": r["a"], "s": Map{"w": float64(2)}})
 		}
 		verif.Assert(verif.Eq(got, want), "async-equals-sync")
+	case 12:
+		want := []any{}
+		for _, r := range rows {
+			want = append(want, Map{"a": r["a"], "o": nil})
+		}
+		wantCalls := 1
+		if n == 0 {
+			wantCalls = 0
+		}
+		verif.Assert(callsH == wantCalls, "once-called-once")
+		verif.Assert(verif.Eq(got, want), "once-value-on-every-row")
 	case 2:
 		want := []any{}
 		for _, r := range rows {
